@@ -623,6 +623,7 @@ def c11_corpus(tier, seed):
     # stand-alone Eq: every field
     add('struct', tparams(['T', 'U']), [('S', 'named', [Field(T), Field(PH(U))], False)], [('Eq', None)], hand=['PartialEq'])
     add('enum', tparams(['T', 'U']), [('A', 'tuple', [Field(T)], False), ('B', 'named', [Field(OPT(U))], False)], [('Eq', None)], hand=['PartialEq'])
+    add('union', tparams(['T', 'U'], {'T': 'Copy', 'U': 'Copy'}), [('S', 'named', [Field(T), Field(U)], False)], [('Eq', None)], hand=['PartialEq'])
     # Copy with Clone (companion; Clone then requires Copy of every field), stand-alone Copy
     add('struct', tparams(['T', 'U']), [('S', 'named', [Field(T), Field(OPT(U))], False)], [('Copy', None), ('Clone', None)])
     add('enum', tparams(['T', 'U']), [('A', 'tuple', [Field(T), Field(PH(U))], False), ('B', 'unit', [], False)], [('Copy', None), ('Clone', None)])
